@@ -160,4 +160,113 @@ theorem DiagRun.facts {m : M6 ℝ} {d : Eig12 ℝ} (r : DiagRun m d) : r.Facts :
     unfold DiagRun.eps0 DiagRun.eps1 DiagRun.eps2
     abel
 
+/-- `m = Q diag(d) Qᵀ + resid`, entry by entry -/
+theorem DiagRun.eq_add_resid {m : M6 ℝ} {d : Eig12 ℝ} (r : DiagRun m d) : m = formM d + r.resid := by
+  apply M6.toMat_injective
+  rw [r.facts.eq]
+  simp only [toMat_add, toMat_offDiag, DiagRun.resid]
+  abel
+
+/-! ### runs without residual -/
+
+/-- `diagM m` returned `d` and every sub-diagonal entry the convergence test dropped was exactly zero -/
+def ZeroResidual (m : M6 ℝ) (d : Eig12 ℝ) : Prop := ∃ r : DiagRun m d, r.eps0 = 0 ∧ r.eps1 = 0 ∧ r.eps2 = 0
+
+theorem DiagRun.isEigSys {m : M6 ℝ} {d : Eig12 ℝ} (r : DiagRun m d) (h0 : r.eps0 = 0) (h1 : r.eps1 = 0)
+    (h2 : r.eps2 = 0) : IsEigSys d m := by
+  refine ⟨diagM_orthonormal' m d r.diagM_eq, ?_⟩
+  apply M6.toMat_injective
+  have e := r.facts.eq
+  rw [h0, h1, h2] at e
+  simp only [dropMat_zero, add_zero] at e
+  exact e.symm
+
+/-- inputs whose tridiagonal form has e[1] = 0 and an e[0] that does not pass the convergence test: one sweep over
+    the leading 2x2 block annihilates e[0] exactly, nothing non-zero is dropped -/
+theorem zeroResidual_block2 (m : M6 ℝ) (he1 : (rot0 m).e1 = 0) (hs : (tstUpd 0 (rot0 m)).isSmall 0 = false) :
+    ∃ d, ZeroResidual m d := by
+  obtain ⟨d, hd⟩ := diagM_block2_ok m he1
+  obtain ⟨r⟩ := diagM_run m d hd
+  refine ⟨d, r, ?_, ?_, ?_⟩
+  · unfold DiagRun.eps0 rowEps; rw [he1]; simp
+  all_goals
+    have ht : (0 : ℝ) ≤ (rot0 m).tst1 := by rw [rot0_tst1]
+    obtain ⟨ud, u0, u1, u2, uf, ut⟩ := tstUpd_spec 0 (rot0 m) ht
+    have e0ne : (tstUpd 0 (rot0 m)).e0 ≠ 0 := ne_zero_of_not_isSmall _ 0 ut hs
+    obtain ⟨_, z0, z1⟩ := sweep01_repr (tstUpd 0 (rot0 m)) e0ne
+    have h1 := r.h1
+    rw [rowStep0_block2 (rot0 m) ht he1 hs] at h1
+    injection h1 with h1
+  · unfold DiagRun.eps1; rw [← h1, setD_e0]; exact z0
+  · have s1e1 : r.st1.e1 = 0 := by rw [← h1, setD_e1]; exact z1
+    have s1t : 0 ≤ r.st1.tst1 := by
+      rw [← h1, setD_tst1, sweep_tst1]; exact ut
+    obtain ⟨t1, _, q1⟩ := rowStep_of_zero 1 (by omega) r.st1 s1t s1e1
+    have h2 := r.h2
+    rw [q1] at h2
+    injection h2 with h2
+    unfold DiagRun.eps2
+    rw [← h2]
+    have := acceptRow_getE 1 1 r.st1 t1
+    exact this.trans s1e1
+
+/-- a diagonal matrix is decomposed without residual -/
+theorem zeroResidual_diag (a b c : ℝ) : ZeroResidual ⟨a, 0, 0, b, 0, c⟩ ⟨a, b, c, 1, 0, 0, 0, 1, 0, 0, 0, 1⟩ := by
+  obtain ⟨r⟩ := diagM_run _ _ (diagM_diagonal' a b c)
+  have hrot : rot0 (⟨a, 0, 0, b, 0, c⟩ : M6 ℝ) =
+      { d := ⟨a, b, c, 1, 0, 0, 0, 1, 0, 0, 0, 1⟩, e0 := 0, e1 := 0, e2 := 0, f := 0, tst1 := 0 } := by
+    unfold rot0
+    dsimp only
+    have hL : Scalar.sqrt (Scalar.add (Scalar.mul (0 : ℝ) 0) (Scalar.mul (0 : ℝ) 0)) = 0 := by
+      rw [sqrt_eq, add_eq, mul_eq]; simp
+    rw [hL]
+    have hd : Scalar.divisible (0 : ℝ) 0 = false := by
+      rw [Bool.eq_false_iff]; intro h; exact divisible_ne_zero h rfl
+    simp only [hd, Bool.false_and, Bool.false_eq_true, if_false, one_eq, zero_eq]
+  have h1 := r.h1
+  rw [hrot] at h1
+  obtain ⟨t0, ht0, q0⟩ := rowStep_of_zero 0 (by omega)
+    ({ d := ⟨a, b, c, 1, 0, 0, 0, 1, 0, 0, 0, 1⟩, e0 := 0, e1 := 0, e2 := 0, f := 0, tst1 := 0 } : QL ℝ) (le_refl _) rfl
+  rw [q0] at h1
+  injection h1 with h1
+  have s1e0 : r.st1.e0 = 0 := by rw [← h1]; exact acceptRow_getE 0 0 _ t0
+  have s1e1 : r.st1.e1 = 0 := by rw [← h1]; exact acceptRow_getE 0 1 _ t0
+  have s1t : 0 ≤ r.st1.tst1 := by rw [← h1, acceptRow_tst1]; exact ht0
+  obtain ⟨t1, _, q1⟩ := rowStep_of_zero 1 (by omega) r.st1 s1t s1e1
+  have h2 := r.h2
+  rw [q1] at h2
+  injection h2 with h2
+  refine ⟨r, ?_, s1e0, ?_⟩
+  · unfold DiagRun.eps0 rowEps; rw [hrot]; simp
+  · unfold DiagRun.eps2; rw [← h2]; exact (acceptRow_getE 1 1 r.st1 t1).trans s1e1
+
+/-! ### a non-diagonal example: [[1,3,4],[3,2,0],[4,0,2]] (first rotation with L = 5, then one genuine QL sweep) -/
+
+theorem rot0_example345 : rot0 (⟨1, 3, 4, 2, 0, 2⟩ : M6 ℝ) =
+    { d := ⟨1, 2, 2, 1, 0, 0, 0, 3 / 5, 4 / 5, 0, 4 / 5, -(3 / 5)⟩, e0 := 5, e1 := 0, e2 := 0, f := 0, tst1 := 0 } := by
+  have h5 : Real.sqrt (3 * 3 + 4 * 4) = 5 := by
+    rw [show (3 * 3 + 4 * 4 : ℝ) = 5 * 5 by norm_num]; exact Real.sqrt_mul_self (by norm_num)
+  unfold rot0
+  simp only [mul_eq, add_eq, sqrt_eq, h5]
+  have g3 : Scalar.divisible (3 : ℝ) 5 = true := by rw [divisible_iff]; norm_num
+  have g4 : Scalar.divisible (4 : ℝ) 5 = true := by rw [divisible_iff]; norm_num
+  simp only [g3, g4, Bool.and_self, if_true, div_eq, sub_eq, neg_eq, one_eq, zero_eq, two_eq]
+  norm_num
+
+theorem example345_not_small : (tstUpd 0 (rot0 (⟨1, 3, 4, 2, 0, 2⟩ : M6 ℝ))).isSmall 0 = false := by
+  rw [rot0_example345]
+  have ht : tstUpd 0 ({ d := ⟨1, 2, 2, 1, 0, 0, 0, 3 / 5, 4 / 5, 0, 4 / 5, -(3 / 5)⟩, e0 := 5, e1 := 0, e2 := 0, f := 0, tst1 := 0 } : QL ℝ) =
+      { d := ⟨1, 2, 2, 1, 0, 0, 0, 3 / 5, 4 / 5, 0, 4 / 5, -(3 / 5)⟩, e0 := 5, e1 := 0, e2 := 0, f := 0, tst1 := 6 } := by
+    unfold tstUpd
+    simp only [QL.getD, QL.getE, cabs_eq, add_eq]
+    have : Scalar.lt (0 : ℝ) (|1| + |5|) = true := by rw [lt_iff]; norm_num
+    rw [if_pos this]
+    norm_num
+  rw [ht]
+  unfold QL.isSmall
+  simp only [QL.getE, cabs_eq, add_eq, sub_eq, mul_eq, ofDec_eq]
+  cases relativeConvergence
+  · simp only [Bool.false_eq_true, if_false]; rw [lt_false_iff]; norm_num
+  · simp only [if_true]; rw [le_false_iff]; norm_num
+
 end Refine.Model.Matrix
